@@ -14,6 +14,7 @@ CONSTANTS Ent,        \* entity slots, filled in the order of Ord
           KeySp,      \* spellings of the 'targetname' key
           Prefixes,   \* make_unique(prefix) arguments
           IterOps,    \* mutation paths exercised in the middle of an iteration
+          ScanKinds,  \* lookups spanning several buckets that are in progress while a mutation happens
           CopyMaps,   \* maps an entity can be copied into
           PClass,     \* classnames / targetnames given to passive (never mutated) entities
           PNames,
@@ -128,9 +129,35 @@ IterMutate ==
     \/ ("clear" \in IterOps /\ \E a \in ClearActs : IterDo(a))
     \/ ("make_unique" \in IterOps /\ \E a \in MakeUniqueActs : IterDo(a))
 
+\* A lookup that walks SEVERAL buckets - a vmf.search(pattern) generator, or a snapshot of
+\* by_class.items() / by_target.items() walked afterwards - is in progress (something was delivered,
+\* more is to come) when one call goes through the index maintenance for an entity that is the only
+\* member of its bucket.  What the rest of the lookup may deliver is the trace validator's ScanOK:
+\* nobody who, when delivered, no longer has that class / name or is no longer in the map.
+Buckets(kd) == IF kd = "items_class" THEN st.bc["m1"] ELSE st.bt["m1"]
+Spans(kd) == IF kd = "items_class" THEN Cardinality(DOMAIN st.bc["m1"]) >= 2
+             ELSE IF kd = "items_target" THEN Cardinality(DOMAIN st.bt["m1"]) >= 2
+             ELSE Cardinality(DOMAIN st.bt["m1"] \ {""}) >= 2          \* search: unnamed entities are never found
+Sole(kd, x) == \E k \in DOMAIN Buckets(kd) : Buckets(kd)[k] = {x} /\ (kd \in {"items_class", "items_target"} \/ k # "")
+ScanDo(a) == \E kd \in ScanKinds :
+                /\ Spans(kd) /\ Sole(kd, a.x)
+                /\ LET post == Apply(MCF, st, a).s      \* the call moves something in the index walked
+                   IN  IF kd = "items_class" THEN post.bc["m1"] # st.bc["m1"] ELSE post.bt["m1"] # st.bt["m1"]
+                /\ st' = Apply(MCF, st, a).s
+                /\ act' = [op |-> "scan", kind |-> kd, m |-> "m1", mut |-> a]
+ScanMutate == \/ \E a \in RemoveEntActs : ScanDo(a)     \* every path through the bucket removal
+              \/ \E a \in EntRemoveActs : ScanDo(a)
+              \/ \E a \in SetClassActs : ScanDo(a)
+              \/ \E a \in SetNameActs : ScanDo(a)
+              \/ \E a \in UpdateActs : ScanDo(a)
+              \/ \E a \in DelNameActs : ScanDo(a)
+              \/ \E a \in PopNameActs : ScanDo(a)
+              \/ \E a \in ClearActs : ScanDo(a)
+              \/ \E a \in MakeUniqueActs : ScanDo(a)
+
 Next == \/ NewEnt \/ CreateEnt \/ AddEnt \/ AddEnts \/ RemoveEnt \/ EntRemove
         \/ SetClass \/ SetName \/ SetDefault \/ Update \/ DelName \/ DelClass \/ PopName \/ PopClass
-        \/ Clear \/ CopyTo \/ MakeUnique \/ IterMutate
+        \/ Clear \/ CopyTo \/ MakeUnique \/ IterMutate \/ ScanMutate
 
 Spec == Init /\ [][Next]_vars
 
